@@ -273,9 +273,22 @@ void NodeEvent::createStraightConstraints(OpenSegments& openSegments,
             continue;
         } 
         const double p = s->forwardIntersection(scanDim, pos);
-        if ( (p<leftLimit&&pos>leftNeighbour->rect->getMinD(vpsc::conjugate(scanDim))&&
+        // A neighbour hides the segment only if the segment must stay clear
+        // of it: a segment attached to the neighbour's centre is free to
+        // swing round that centre, so it still needs a constraint with node.
+        const bool attachedLeft = leftNeighbour &&
+            ( (s->start->node->id==leftNeighbour->id
+                    && s->start->rectIntersect==EdgePoint::CENTRE)
+           || (s->end->node->id==leftNeighbour->id
+                    && s->end->rectIntersect==EdgePoint::CENTRE) );
+        const bool attachedRight = rightNeighbour &&
+            ( (s->start->node->id==rightNeighbour->id
+                    && s->start->rectIntersect==EdgePoint::CENTRE)
+           || (s->end->node->id==rightNeighbour->id
+                    && s->end->rectIntersect==EdgePoint::CENTRE) );
+        if ( (!attachedLeft&&p<leftLimit&&pos>leftNeighbour->rect->getMinD(vpsc::conjugate(scanDim))&&
                 pos<leftNeighbour->rect->getMaxD(vpsc::conjugate(scanDim)))
-          || (p>rightLimit&&pos>rightNeighbour->rect->getMinD(vpsc::conjugate(scanDim))&&
+          || (!attachedRight&&p>rightLimit&&pos>rightNeighbour->rect->getMinD(vpsc::conjugate(scanDim))&&
                 pos<rightNeighbour->rect->getMaxD(vpsc::conjugate(scanDim))) )
         { 
             FILE_LOG(logDEBUG1)<<
